@@ -915,6 +915,38 @@ theorem window_sequential_bound (cfg : WinCfg) (txt : Bytes) (reqs : List WinReq
     rw [hc, Nat.sub_zero] at this
     exact this
 
+theorem lemma_winAnswer_reject (cfg : WinCfg) (txt : Bytes) (d : Decision) :
+    ((winAnswer cfg txt d).status != 429 || ((winAnswer cfg txt d).retryAfter.isSome && !(winAnswer cfg txt d).ran)) = true := by
+  unfold winAnswer
+  by_cases h : d.usage ≥ cfg.limit <;> cases cfg.hasCallback <;> cases cfg.enforce <;> simp [h]
+
+/-- **429 always comes with `Retry-After`** — every schedule, serial or not: whenever the
+    sliding-window middleware answers 429 it sends a `Retry-After` and the handler does not run -/
+theorem window_reject_has_retry_after (cfg : WinCfg) (txt : Bytes) (reqs : List WinReq) (sched : List Op) :
+    rejectOK (runWin cfg txt reqs sched) = true := by
+  unfold rejectOK runWin
+  have key : ∀ (ops : List Op) (s : WinState),
+      (s.answers.all fun a => a.2.status != 429 || (a.2.retryAfter.isSome && !a.2.ran)) = true →
+      ((ops.foldl (stepWin cfg txt reqs) s).answers.all fun a => a.2.status != 429 || (a.2.retryAfter.isSome && !a.2.ran)) = true := by
+    intro ops
+    induction ops with
+    | nil => intro s h; exact h
+    | cons op rest ih =>
+      intro s h
+      simp only [List.foldl_cons]
+      apply ih
+      cases op with
+      | get i =>
+        simp only [stepWin]
+        split <;> exact h
+      | inc i =>
+        simp only [stepWin]
+        split
+        · simp only [List.all_append, h, Bool.true_and, List.all_cons, List.all_nil, Bool.and_true]
+          exact lemma_winAnswer_reject cfg txt _
+        · exact h
+  exact key sched _ rfl
+
 /-- the classes of inputs the two recorded findings live in, as the driver computes them: a schedule
     that is not serial (K16b race) and a case that retries after Retry-After (K16b truthfulness) -/
 def Excluded (reqs : List WinReq) (sched : List Op) (retries : List (Nat × Nat)) : Prop :=
@@ -924,12 +956,13 @@ def Excluded (reqs : List WinReq) (sched : List Op) (retries : List (Nat × Nat)
 theorem window_meets_spec_partial (cfg : WinCfg) (txt : Bytes) (reqs : List WinReq) (sched : List Op)
     (retries : List (Nat × Nat)) (hW : 1 ≤ cfg.W) (hsorted : reqs.Pairwise (fun a b => a.now ≤ b.now))
     (hD : ¬ Excluded reqs sched retries) :
-    (windowBoundOK cfg reqs (runWin cfg txt reqs sched) && retryOK reqs (runWin cfg txt reqs sched) retries) = true := by
+    (windowBoundOK cfg reqs (runWin cfg txt reqs sched) && retryOK reqs (runWin cfg txt reqs sched) retries &&
+      rejectOK (runWin cfg txt reqs sched)) = true := by
   unfold Excluded at hD
   have h1 : sched = serial reqs.length := Classical.byContradiction fun h => hD (Or.inl h)
   have h2 : retries = [] := Classical.byContradiction fun h => hD (Or.inr h)
   subst h1 h2
-  rw [window_sequential_bound cfg txt reqs hW hsorted]
+  rw [window_sequential_bound cfg txt reqs hW hsorted, window_reject_has_retry_after]
   simp [retryOK]
 
 /-- K16b, the race: limit 1, both requests read the count before either increments it — both reach
